@@ -39,6 +39,8 @@ def rename(rng, prems, conc):
                 if v not in vars_: vars_.append(v)
     def inj(items, mk, pool):
         pool = list(pool)
+        while len(pool) < len(items):        # arguments with very many symbols: higher subscripts
+            pool.append((len(pool) % 4, 2 + len(pool) // 4))
         rng.shuffle(pool)
         if rng.random() < 0.3:
             pool.sort(reverse=True)          # order-reversing
@@ -48,6 +50,8 @@ def rename(rng, prems, conc):
     vmap = inj(vars_, lambda k: ('v', k[0], k[1]), [(i, s) for i in range(4) for s in range(2)])
     pmap = {}
     pool = [(i, s) for i in range(4) for s in range(3)]
+    while len(pool) < len(preds):
+        pool.append((len(pool) % 4, 3 + len(pool) // 4))
     rng.shuffle(pool)
     for i, pk in enumerate(preds):
         pmap[pk] = (pool[i][0], pool[i][1], pk[2])
@@ -116,6 +120,9 @@ def make_family(ctx):
     rng = ctx.rng('workload')
     logic = proofwl.pick_logic(rng, ctx.index, SALTS)
     prems, conc = proofwl.gen_case(rng, logic)
+    serial = refsem.get(logic).frame == 'D'
+    if serial and rng.random() < 0.4:
+        prems, conc = proofwl.dead_end_template(rng)
     prof = proofwl.profile_for(rng, logic)
     fam = dict(base=(prems, conc))
     rp = list(prems)
@@ -143,12 +150,12 @@ def make_family(ctx):
         k = rng.randrange(len(vs) + 1)
         fam['reflexive'] = (vs[:k] + [lit] + vs[k:] + ([rng.choice(prems)] if prems and rng.random() < 0.3 else []), lit)
     extra = lexgen.gen_sentence(rng, prof, depth=rng.choice((0, 1, 2)))
-    if refsem.get(logic).modal and rng.random() < 0.3:
+    if refsem.get(logic).modal and rng.random() < (0.6 if serial else 0.3):
         # a premise that only opens or demands further worlds
         x = ('A', rng.randrange(3), 0)
         extra = rng.choice((('O', 'Necessity', (('O', 'Possibility', (x,)),)), ('O', 'Possibility', (x,)), ('O', 'Necessity', (x,))))
     mp = list(prems)
-    mp.insert(rng.randrange(len(mp) + 1), extra)
+    mp.insert(0 if rng.random() < 0.3 else rng.randrange(len(mp) + 1), extra)
     fam['extended'] = (mp, conc)
     fam['renamed'] = rename(rng, prems, conc)
     if prems and rng.random() < 0.5:
